@@ -66,12 +66,17 @@ Descriptors(base, open) == base + Cardinality(open)
 ApiContract(c) ==
     CASE c \in {"decode-nonpointer", "decode-into-int", "unmarshal-float-field", "unmarshal-nested-struct-field", "unmarshal-pointer-field",
                 "marshal-float-field", "marshal-nested-struct-field", "marshal-int", "convert-nonpointer", "convert-pointer-to-int",
-                "unpack-nonpointer"} -> "error"
+                "unpack-nonpointer", "hashio-unknown-NewHasher", "hashio-unknown-GetHash", "hashio-unknown-NewHasherReader",
+                "hashio-unknown-NewHasherWriter", "hashio-unknown-NewHasherReaders", "hashio-unknown-NewHasherWriters",
+                "debsig-on-zero-deb", "debsig-signature-member-only", "debsig-without-control-and-data"} -> "error"
       [] c \in {"unpack-equals-unmarshal", "convert-equals-marshal", "encode-slice-equals-encode-each", "encode-pointer-to-slice",
-                "marshal-pointer-field"} -> "same"
+                "marshal-pointer-field", "gz-compressor-roundtrip", "close-deb-without-closer"} -> "same"
       [] c = "marshal-nil-pointer-field" -> "error-or-omitted"        \* a nil pointer has no text: an error, or the field left out
 ApiCases == {"decode-nonpointer", "decode-into-int", "unmarshal-float-field", "unmarshal-nested-struct-field", "unmarshal-pointer-field",
              "marshal-float-field", "marshal-nested-struct-field", "marshal-int", "convert-nonpointer", "convert-pointer-to-int",
              "unpack-nonpointer", "unpack-equals-unmarshal", "convert-equals-marshal", "encode-slice-equals-encode-each",
-             "encode-pointer-to-slice", "marshal-pointer-field", "marshal-nil-pointer-field"}
+             "encode-pointer-to-slice", "marshal-pointer-field", "marshal-nil-pointer-field",
+             "hashio-unknown-NewHasher", "hashio-unknown-GetHash", "hashio-unknown-NewHasherReader", "hashio-unknown-NewHasherWriter",
+             "hashio-unknown-NewHasherReaders", "hashio-unknown-NewHasherWriters", "gz-compressor-roundtrip",
+             "debsig-on-zero-deb", "debsig-signature-member-only", "debsig-without-control-and-data", "close-deb-without-closer"}
 =============================================================================
